@@ -66,7 +66,7 @@ func c03Openers(c *Ctx, global *types.Var) (openers, decoderSet map[*ssa.Functio
 	if mt, isMap := global.Type().Underlying().(*types.Map); isMap {
 		if st, isSt := mt.Elem().Underlying().(*types.Struct); isSt {
 			for fi := 0; fi < st.NumFields(); fi++ {
-				if sg, isSig := st.Field(fi).Type().Underlying().(*types.Signature); isSig {
+				if sg := c03CheckerSigOf(st.Field(fi).Type()); sg != nil {
 					checkerSig = sg
 				}
 			}
@@ -125,6 +125,34 @@ func c03Openers(c *Ctx, global *types.Var) (openers, decoderSet map[*ssa.Functio
 		}
 		return nil
 	}})
+	// A list of checkers is applied in a loop: leaving that loop normally means every checker
+	// of the (non-empty, see D1) list returned nil, provided a failing checker leaves the
+	// function with an error (judged separately by reject-on-failure on the call). The edges
+	// that leave the loop of a checker call are therefore accepting edges too.
+	vcChk.Extra = func(fn *ssa.Function) []edge {
+		var acc []edge
+		for _, cc := range checkerCallsIn(fn) {
+			b := cc.Block()
+			if !inLoop(cc) {
+				continue
+			}
+			from := reach(b, nil)
+			inLoop := map[*ssa.BasicBlock]bool{}
+			for x := range from {
+				if reach(x, nil)[b] {
+					inLoop[x] = true
+				}
+			}
+			for x := range inLoop {
+				for _, s := range x.Succs {
+					if !inLoop[s] {
+						acc = append(acc, edge{x, s})
+					}
+				}
+			}
+		}
+		return acc
+	}
 	vcLookup := newVerifierCache(w, checkRole{Name: "table lookup", Match: func(*ssa.Function, ssa.CallInstruction) []ssa.Value { return nil }})
 	vcLookup.Extra = func(fn *ssa.Function) []edge {
 		var acc []edge
